@@ -134,11 +134,8 @@ func (c *FenceConn) BeginTx(ctx context.Context, opts driver.TxOptions) (driver.
 	tm.SetFenceTxBeginedFlag(ctx, true)
 
 	// do fence operations
-	emptyCallback := func() error {
-		return nil
-	}
-
-	if err := WithFence(ctx, fenceTx, emptyCallback); err != nil {
+	runBusiness, err := doFence(ctx, fenceTx)
+	if err != nil {
 		// the fence refused (or failed): neither transaction may stay open
 		tm.SetFenceTxBeginedFlag(ctx, false)
 		if rerr := fenceTx.Rollback(); rerr != nil {
@@ -154,6 +151,7 @@ func (c *FenceConn) BeginTx(ctx context.Context, opts driver.TxOptions) (driver.
 		Ctx:           ctx,
 		TargetTx:      tx,
 		TargetFenceTx: fenceTx,
+		SkipBusiness:  !runBusiness,
 	}, nil
 }
 
